@@ -205,18 +205,41 @@ Theorem sync_one_meets_spec :
 Proof. exact sync_one_spec. Qed.
 Print Assumptions sync_one_meets_spec.
 
-(* SyncHAMTEntries (all links, no limit) over every tree of distinct blocks the world holds:
-   each block once, in pre-order; requests = the missing ones.  (The depth bound is the
-   model's traversal fuel; for chains it is proved, here it is a hypothesis.) *)
+(* SyncHAMTEntries (all links, no limit) over every finite tree of distinct blocks the world
+   holds: each block once, in pre-order; requests = the missing ones.  The model's traversal
+   fuel (number of blocks of the world + 1) is PROVED sufficient: a tree of distinct blocks
+   is at most as deep as it has blocks, and all of them are blocks of the world.
+   For a DAG with shared blocks see walk_dag_unfolding below. *)
 Theorem walk_tree_preorder :
   forall d pub cfg scoped st t,
-    dag_has d t = true -> NoDup (preorder t) -> (depth t <= S (length d))%nat ->
+    dag_has d t = true -> NoDup (preorder t) ->
     avail pub (s_store st) (preorder t) = true ->
     sync_all (WORLD d pub) cfg (Some (root t)) scoped st =
     CO RNil (calls_of (resolve_hook cfg scoped) (preorder t)) (missing (s_store st) (preorder t)) None
        (ST (s_latest st) (rev (missing (s_store st) (preorder t)) ++ s_store st)).
 Proof. exact sync_all_tree. Qed.
 Print Assumptions walk_tree_preorder.
+
+(* DAGs with shared blocks: for ANY finite unfolding t of the DAG below the requested block
+   (a block linked from several places occurs in t once per path) the hook is handed the
+   pre-order of t -- a shared block once per path -- while every block is REQUESTED at most
+   once: [fetches store l] = the blocks of l neither stored nor met earlier in l.  For a tree
+   of distinct blocks fetches = missing and this is walk_tree_preorder.  (Here the depth of
+   the unfolding is bounded by hypothesis: number of blocks of the world + 1.) *)
+Theorem walk_dag_unfolding :
+  forall d pub cfg scoped st t,
+    dag_has d t = true -> (depth t <= S (length d))%nat ->
+    avail pub (s_store st) (preorder t) = true ->
+    sync_all (WORLD d pub) cfg (Some (root t)) scoped st =
+    CO RNil (calls_of (resolve_hook cfg scoped) (preorder t)) (fetches (s_store st) (preorder t)) None
+       (ST (s_latest st) (rev (fetches (s_store st) (preorder t)) ++ s_store st)).
+Proof. exact sync_all_dag. Qed.
+Print Assumptions walk_dag_unfolding.
+
+Theorem fetches_of_distinct_blocks :
+  forall l s, NoDup l -> fetches s l = missing s l.
+Proof. exact fetches_nodup. Qed.
+Print Assumptions fetches_of_distinct_blocks.
 
 (* ---- handler removal ---- *)
 
